@@ -250,3 +250,50 @@ M("C05.hook_swaps_levels", "C05", "src/macro_hooks.rs",
         if let Some(lvl) = self.panic_lvl.and_then(|lvl| lvl.capture()) {
             completion = completion.with_lvl(lvl);
         }""", "C05.hooks")
+
+# ---- C03 -------------------------------------------------------------------------------------------
+M("C03.guard_drop_body_removed", "C03", "src/frame.rs",
+  """    fn drop(&mut self) {
+        self.scope.ctxt.exit(&mut self.scope.scope);
+    }""",
+  """    fn drop(&mut self) {
+        let _ = &self.scope;
+    }""", "C03.R2")
+M("C03.poll_drops_guard_early", "C03", "src/frame.rs",
+  "        let __guard = unpinned.frame.enter();",
+  "        let _ = unpinned.frame.enter();", "C03.R3:FrameFuture::poll")
+M("C03.call_drops_guard_early", "C03", "src/frame.rs",
+  "        let __guard = self.enter();\n        scope()",
+  "        let _ = self.enter();\n        scope()", "C03.R3:Frame::call")
+M("C03.tlc_exit_noop", "C03", "src/platform/thread_local_ctxt.rs",
+  """    fn exit(&self, frame: &mut Self::Frame) {
+        swap(self.id, frame);
+    }""",
+  """    fn exit(&self, frame: &mut Self::Frame) {
+        let _ = frame;
+    }""", "C03.R6")
+M("C03.open_root_from_current", "C03", "src/platform/thread_local_ctxt.rs",
+  """        let mut span = HashMap::new();
+
+        let _ = props.for_each(|k, v| {""",
+  """        let mut span = current(self.id).props.map(|p| (*p).clone()).unwrap_or_default();
+
+        let _ = props.for_each(|k, v| {""", "C03.R9:open_root")
+M("C03.box_exit_forwards_to_enter", "C03", "core/src/ctxt.rs",
+  """    fn exit(&self, frame: &mut Self::Frame) {
+        (**self).exit(frame)
+    }""",
+  """    fn exit(&self, frame: &mut Self::Frame) {
+        (**self).enter(frame)
+    }""", ["C03.forward", "C03.R4"], count=3)
+M("C03.swap_keyed_by_zero", "C03", "src/platform/thread_local_ctxt.rs",
+  """        let current = active
+            .entry(id)""",
+  """        let current = active
+            .entry(id & 0)""", "C03.R6:swap")
+M("C03.open_push_keeps_ambient", "C03", "src/platform/thread_local_ctxt.rs",
+  "            span_props.insert(k.to_shared(), ThreadLocalValue::from_value(v));",
+  "            span_props.entry(k.to_shared()).or_insert_with(|| ThreadLocalValue::from_value(v));", "C03.R9:open_push")
+M("C03.frame_drop_skips_close", "C03", "src/frame.rs",
+  "        ctxt.close(scope)\n",
+  "        let _ = (ctxt, scope);\n", "C03.R5")
